@@ -599,15 +599,25 @@ func (mf *mergeFn) appendedElems(arg ssa.Value) []ssa.Value {
 	if !ok {
 		return nil
 	}
-	var out []ssa.Value
+	type ent struct {
+		idx int64
+		v   ssa.Value
+	}
+	var ents []ent
 	for _, r := range *al.Referrers() {
 		if ia, ok := r.(*ssa.IndexAddr); ok {
+			k, _ := constInt(ia.Index)
 			for _, rr := range *ia.Referrers() {
 				if st, ok := rr.(*ssa.Store); ok && st.Addr == ssa.Value(ia) {
-					out = append(out, st.Val)
+					ents = append(ents, ent{k, st.Val})
 				}
 			}
 		}
+	}
+	sort.SliceStable(ents, func(i, j int) bool { return ents[i].idx < ents[j].idx })
+	var out []ssa.Value
+	for _, e := range ents {
+		out = append(out, e.v)
 	}
 	return out
 }
